@@ -46,6 +46,7 @@ func VC10_Isolation() {
 		return
 	}
 	h := &vHandler{}
+	rt.RaceMonitor(true) // buffer contents: an access after the buffer went back to the pool is a race
 	if rt.Bool("recycled-buffers") {
 		// the pool already holds buffers used before: arbitrary stale bytes where earlier
 		// (longer) datagrams were
@@ -60,6 +61,28 @@ func VC10_Isolation() {
 	rt.Assert(u.Start(h) == nil, "transport started")
 	rt.Quiesce()
 	sock := fakenet.UDPConns[0]
+	if rt.Bool("back-to-back") {
+		// all datagrams first, no quiescence in between: receive and parse loops overlap; one
+		// voluntary context switch lets the parse loop run between two receives
+		rt.Sched(rt.Param("SW"), false)
+		var want []string
+		for i := 0; i < K; i++ {
+			d := genDatagram(L, i)
+			sock.Deliver("10.0.2."+itoa(i+1)+":5060", []byte(d))
+			if ref, rerr := parseText(d); rerr == nil {
+				want = append(want, ref.String())
+			}
+		}
+		rt.Quiesce()
+		rt.Assert(len(h.got) == len(want), "back to back: exactly the complete datagrams are delivered")
+		if len(h.got) == len(want) {
+			for i := range want {
+				rt.Assert(h.got[i].Message.String() == want[i], "back to back: each delivered message is a function of its own datagram")
+			}
+		}
+		rt.Reach("end")
+		return
+	}
 	for i := 0; i < K; i++ {
 		d := genDatagram(L, i)
 		before := len(h.got)
